@@ -65,6 +65,43 @@ def run(tier):
             v.violation(c, "exec:wrong-value" if e[:2] == ["V", "ok"] else "exec:" + "-".join(e[1:2]), "got %s want 0x%x" % (" ".join(e), want))
     st["executions"] = len(ex)
     st["executions_ok"] = ok
+    # ---- execution of register-destination immediate forms against the Python models (vlib/sem.py)
+    from .. import sem
+    strata = {}
+    for c in cases:
+        if c["fam"] in ("imm_ri", "imm_shift_ri", "imm_imul_rri", "imm_rorx", "imm_shxd_rri"):
+            strata.setdefault((c["fam"], c["mn"], c["w"], c.get("imm_bytes"), c.get("imm_neg")), []).append(c)
+    picked = []
+    for k in sorted(strata, key=str):
+        g = strata[k]
+        picked += g if len(g) <= 4 else rnd.sample(g, 4 if not full else 20)
+    ex2, meta2 = [], []
+    for c in picked:
+        pr = sem.program(c, rnd)
+        if pr is None:
+            continue
+        for mode in ("2", "0", "1") if (c["mn"] == "mov" and c["w"] == 64) else ("2",):
+            ex2.append(["new 0 int", "opt 0 mov %s" % mode, "asm 0 %s" % common.hx("\n".join(pr[0])), "exec 0"])
+            meta2.append((c, pr[0], pr[1], mode))
+    res2 = common.run_cases(plain, ex2, tag="c03y")
+    ok2 = 0
+    for (c, prog, want, mode), cmds, r in zip(meta2, ex2, res2):
+        v.count()
+        cc = {k: x for k, x in c.items() if k not in ("exp", "alt")}
+        cc.update({"key": "exec %s [mov=%s]" % (c["text"], mode), "fam": "exec_" + c["fam"], "script": cmds})
+        if r["crash"]:
+            v.violation(cc, r["crash"]["sig"], r["crash"]["stderr"][-600:])
+            continue
+        a, e = r["records"][2].split(), r["records"][3].split()
+        if a[1] != "0":
+            v.violation(cc, "exec:rejected", r["records"][2])
+        elif e[:2] != ["V", "ok"] or int(e[2], 16) != want:
+            v.violation(cc, "exec:computes-differently", "program %s -> %s, model 0x%x" % ("; ".join(prog), " ".join(e), want))
+        else:
+            ok2 += 1
+            v.distinct(("exec2", c["text"], mode))
+    st["model_executions"] = len(ex2)
+    st["model_executions_ok"] = ok2
     v.cov["rule"] = ("immediate-taking forms (ALU/mov/test r,imm and m,imm at every width, imul, shifts, rorx, shld/shrd, push, xabort, psrldq, vperm2*128) x boundary and "
                      "seeded random values representable at the destination x spellings (hex, decimal, negated, leading zeros, 16-digit); decoded immediate compared modulo the "
                      "operand width, immediate-field width checked through instruction length; plus JIT execution of 'mov r64,v; mov rax,r64; ret' for all 16 registers x values x 3 mov modes")
